@@ -482,6 +482,11 @@ class MarkdownNormalizer(Renderer):
             self._prefix = self._second_prefix
             return result
 
+        if isinstance(element.children[0], block.List):
+            # Nothing precedes a list that opens the item, so it needs no separator line
+            # before its first item (the line would come before this item's own marker).
+            self._suppress_item_break = True
+
         result += self.render_children(element)
 
         return result
